@@ -107,6 +107,29 @@ Proof.
   apply Forall_forall. intros y Hy. apply in_map_iff in Hy. destruct Hy as [z [<- Hz]]. rewrite Forall_forall in Hf. specialize (Hf z Hz). lia.
 Qed.
 
+Lemma filter_none' {A} (f : A -> bool) l : (forall x, f x = false) -> filter f l = [].
+Proof. intros H. induction l as [|x l IH]; simpl; [reflexivity|]. rewrite H. exact IH. Qed.
+
+Lemma filter_all' {A} (f : A -> bool) l : (forall x, In x l -> f x = true) -> filter f l = l.
+Proof.
+  induction l as [|x l IH]; intros H; simpl; [reflexivity|]. rewrite (H x (or_introl eq_refl)). f_equal. apply IH. intros y Hy. apply H. right. exact Hy.
+Qed.
+
+Lemma filter_len_le' {A} (f : A -> bool) l : length (filter f l) <= length l.
+Proof. induction l as [|x l IH]; simpl; [lia|]. destruct (f x); simpl; lia. Qed.
+
+Lemma keep_app_drop {A} k (x y : list A) : k <= length y -> keep k (x ++ y) = keep k y.
+Proof.
+  intros H. unfold keep. rewrite app_length. replace (length x + length y - k) with (length x + (length y - k)) by lia.
+  apply skipn_app_exact. reflexivity.
+Qed.
+
+Lemma keep_incl {A} k (l : list A) x : In x (keep k l) -> In x l.
+Proof. apply in_skipn. Qed.
+
+Lemma filter_gt_cons0 a l : filter (fun y => Nat.ltb a y) (0 :: l) = filter (fun y => Nat.ltb a y) l.
+Proof. cbn [filter]. replace (Nat.ltb a 0) with false by (symmetry; apply Nat.ltb_ge; lia). reflexivity. Qed.
+
 Section Full.
 Variables (e : enzyme) (s : str) (mn mx mc : nat).
 
@@ -187,8 +210,7 @@ Proof.
   apply Nat.le_antisymm; apply NoDup_incl_length; try assumption; intros c Hc; apply FG; exact Hc.
 Qed.
 
-Lemma filter_gt_cons0 a l : filter (fun y => Nat.ltb a y) (0 :: l) = filter (fun y => Nat.ltb a y) l.
-Proof. cbn [filter]. replace (Nat.ltb a 0) with false by (symmetry; apply Nat.ltb_ge; lia). reflexivity. Qed.
+
 
 Theorem full_digest_spec_nomet met0 p :
   1 <= n -> met0 && N.eqb (at_ s 0) resM = false ->
@@ -248,8 +270,7 @@ Qed.
    (0, the methionine site 1, and mc enzymatic ones), the last mc+1 afterwards *)
 Definition gkeep (T : list nat) : list nat := if Nat.leb (length T) (mc + 2) then T else keep (mc + 1) T.
 
-Lemma keep_incl {A} k (l : list A) x : In x (keep k l) -> In x l.
-Proof. apply in_skipn. Qed.
+
 
 Lemma keep_tail_nonzero T' : Forall (fun x => x <> 0) T' -> mc + 2 < length (0 :: T') ->
   forall x, In x (keep (mc + 1) (0 :: T')) -> x <> 0.
@@ -322,22 +343,13 @@ Qed.
 Lemma gkeep_small T : length T <= mc + 2 -> gkeep T = T.
 Proof. intros H. unfold gkeep. destruct (Nat.leb_spec (length T) (mc + 2)); [reflexivity | lia]. Qed.
 
-Lemma keep_app_drop {A} k (x y : list A) : k <= length y -> keep k (x ++ y) = keep k y.
-Proof.
-  intros H. unfold keep. rewrite app_length. replace (length x + length y - k) with (length x + (length y - k)) by lia.
-  apply skipn_app_exact. reflexivity.
-Qed.
 
-Lemma filter_len_le' {A} (f : A -> bool) l : length (filter f l) <= length l.
-Proof. induction l as [|x l IH]; simpl; [lia|]. destruct (f x); simpl; lia. Qed.
 
-Lemma filter_none' {A} (f : A -> bool) l : (forall x, f x = false) -> filter f l = [].
-Proof. intros H. induction l as [|x l IH]; simpl; [reflexivity|]. rewrite H. exact IH. Qed.
 
-Lemma filter_all' {A} (f : A -> bool) l : (forall x, In x l -> f x = true) -> filter f l = l.
-Proof.
-  induction l as [|x l IH]; intros H; simpl; [reflexivity|]. rewrite (H x (or_introl eq_refl)). f_equal. apply IH. intros y Hy. apply H. right. exact Hy.
-Qed.
+
+
+
+
 
 (* which starts are open once the methionine site and the enzymatic sites l1 have been passed *)
 Lemma gkeep_In_iff l1 a : incr l1 ->
